@@ -1,8 +1,8 @@
 --------------------------- MODULE Trace_Replication ---------------------------
 (* Validation of phase replays recorded from REAL replications (harness/rest/c06_replication_test.go, converted by
    checks/C06.py: revision ids -> [generation, digest rank], versions -> ranks, source ids -> "A" / "B").
-   One file per (protocol, direction): Proto / Dirs come from the environment (C06_PROTO / C06_DIR).  Lines:
-     {a:"Reset", beh, revs:[[d, g, x, pg, px, body, del] ...]}        the content-addressed revision table of the behaviour
+   Lines:
+     {a:"Reset", beh, proto, dir, revs:[[d, g, x, pg, px, body, del] ...]}        the content-addressed revision table of the behaviour
      {a:"Write", p, d, kind, body, ver, pre:VIEW, post:VIEW}          kind "skip": the environment's write did not apply
      {a:"Start"}  {a:"Stop"}
      {a:"Sync", ok, A:[VIEW ...], B:[VIEW ...]}                       caught-up point: views of every document on both peers
@@ -16,18 +16,19 @@
    model must be quiescent in exactly the logged state (phase-level conformance). *)
 EXTENDS Replication, TraceLib
 
-EnvProto == IF "C06_PROTO" \in DOMAIN IOEnv THEN IOEnv.C06_PROTO ELSE "v3"
-EnvDirs == IF "C06_DIR" \in DOMAIN IOEnv
-           THEN (CASE IOEnv.C06_DIR = "push" -> {"push"} [] IOEnv.C06_DIR = "pull" -> {"pull"} [] OTHER -> {"push", "pull"})
-           ELSE {"push", "pull"}
+TProtos == {"v3"}                   \* one initial state; every Reset line carries the configuration of its scenario
+TDirSets == {{"push", "pull"}}
+LDirs(s) == CASE s = "push" -> {"push"} [] s = "pull" -> {"pull"} [] OTHER -> {"push", "pull"}
+KeepCfg == UNCHANGED <<proto, dirs>>
 D2 == {1, 2}
 EmptyPool == [d \in Docs |-> {}]
 
 VARIABLES l,
           obs,     \* observation of the last caught-up point: [nlive, rest] per peer and document
           rr,      \* observation of the last re-run [on, w, r, f, same]
-          caught   \* the last Wait reached a caught-up point within the bound
-tvars == <<vars, l, obs, rr, caught>>
+          caught,  \* the last Wait reached a caught-up point within the bound
+          devc     \* [Docs -> class of the first named deviation observed on the document ("" = none)]
+tvars == <<vars, l, obs, rr, caught, devc>>
 
 RevOf(t) == [g |-> t[1], x |-> t[2]]
 LView(v) == [tree |-> {RevOf(v.tree[i]) : i \in 1..Len(v.tree)}, cur |-> RevOf(v.cur),
@@ -43,27 +44,30 @@ LRevs(rs) == [d \in Docs |->
                       [par |-> [g |-> rs[i][4], x |-> rs[i][5]], body |-> rs[i][6], del |-> rs[i][7]]]]
 
 NoObs == [p \in Peers |-> [d \in Docs |-> [nlive |-> 0, rest |-> [code |-> 0, id |-> <<>>, body |-> 0, del |-> FALSE]]]]
-NoRR == [on |-> FALSE, w |-> 0, r |-> 0, f |-> 0, same |-> TRUE]
+NoRR == [on |-> FALSE, w |-> 0, r |-> 0, f |-> 0, chg |-> {}]
 
 Ev(a) == l <= TraceLen /\ Trace[l].a = a /\ l' = l + 1
-TInit == Init /\ l = 1 /\ obs = NoObs /\ rr = NoRR /\ caught = TRUE
+TInit == Init /\ l = 1 /\ obs = NoObs /\ rr = NoRR /\ caught = TRUE /\ devc = [d \in Docs |-> ""]
 
 Reset == /\ Ev("Reset")
+         /\ proto' = Trace[l].proto /\ dirs' = LDirs(Trace[l].dir)
          /\ doc' = [p \in Peers |-> [d \in Docs |-> Absent]]
          /\ revs' = LRevs(Trace[l].revs) /\ pool' = EmptyPool
          /\ seq' = [p \in Peers |-> 0] /\ dseq' = [p \in Peers |-> [d \in Docs |-> 0]]
-         /\ running' = FALSE /\ cursor' = [x \in Dirs |-> 0] /\ ckpt' = [x \in Dirs |-> 0] /\ msgs' = [x \in Dirs |-> {}]
+         /\ running' = FALSE /\ cursor' = [x \in AllDirs |-> 0] /\ ckpt' = [x \in AllDirs |-> 0] /\ msgs' = [x \in AllDirs |-> {}]
          /\ out' = [a |-> "None", d |-> 0, res |-> "None"]
          /\ twrote' = [p \in Peers |-> [d \in Docs |-> FALSE]] /\ edits' = 0 /\ stops' = 0 /\ reruns' = 0
          /\ rerun' = FALSE /\ snap' = doc' /\ sync' = FALSE /\ swapped' = {} /\ devd' = {}
-         /\ hist' = <<>> /\ obs' = NoObs /\ rr' = NoRR /\ caught' = TRUE
+         /\ hist' = <<>> /\ obs' = NoObs /\ rr' = NoRR /\ caught' = TRUE /\ devc' = [d \in Docs |-> ""]
+
+ClassIn(D, R, d) == IF CvSwapIn(D, d) THEN "TombstoneCvSwap" ELSE IF UnsentTombIn(D, R, d) THEN "UnsentTombstone" ELSE ""
 
 (* ghosts of a logged environment write (the counters are not bounded here) *)
 TGhostWrite(p, d, applied) ==
   /\ twrote' = IF applied THEN [twrote EXCEPT ![p][d] = TRUE] ELSE twrote
   /\ edits' = edits + 1
-  /\ UNCHANGED <<pool, stops, reruns, rerun, snap, swapped, devd>>
-  /\ sync' = FALSE /\ UNCHANGED <<hist, obs, caught>> /\ rr' = NoRR
+  /\ UNCHANGED <<pool, stops, reruns, rerun, snap, swapped, devd>> /\ KeepCfg
+  /\ sync' = FALSE /\ UNCHANGED <<hist, obs, caught, devc>> /\ rr' = NoRR
 
 -----------------------------------------------------------------------------
 (* pass P *)
@@ -72,26 +76,28 @@ PWrite == /\ Ev("Write")
              /\ doc' = IF r.kind = "skip" THEN doc ELSE [doc EXCEPT ![r.p][r.d] = LView(r.post)]
              /\ TGhostWrite(r.p, r.d, r.kind # "skip")
           /\ UNCHANGED <<revs, seq, dseq, running, cursor, ckpt, msgs, out>>
-PStart == /\ Ev("Start") /\ running' = TRUE /\ sync' = FALSE /\ rr' = NoRR
-          /\ UNCHANGED <<doc, revs, seq, dseq, cursor, ckpt, msgs, out, pool, twrote, edits, stops, reruns, rerun, snap, swapped, devd, hist, obs, caught>>
-PStop  == /\ Ev("Stop") /\ running' = FALSE /\ sync' = FALSE /\ rr' = NoRR
-          /\ UNCHANGED <<doc, revs, seq, dseq, cursor, ckpt, msgs, out, pool, twrote, edits, stops, reruns, rerun, snap, swapped, devd, hist, obs, caught>>
-PSync == /\ Ev("Sync")
+PStart == /\ Ev("Start") /\ KeepCfg /\ running' = TRUE /\ sync' = FALSE /\ rr' = NoRR
+          /\ UNCHANGED <<doc, revs, seq, dseq, cursor, ckpt, msgs, out, pool, twrote, edits, stops, reruns, rerun, snap, swapped, devd, hist, obs, caught, devc>>
+PStop  == /\ Ev("Stop") /\ KeepCfg /\ running' = FALSE /\ sync' = FALSE /\ rr' = NoRR
+          /\ UNCHANGED <<doc, revs, seq, dseq, cursor, ckpt, msgs, out, pool, twrote, edits, stops, reruns, rerun, snap, swapped, devd, hist, obs, caught, devc>>
+PSync == /\ Ev("Sync") /\ KeepCfg
          /\ LET r == Trace[l] IN
             /\ doc' = LDocs(r) /\ obs' = LObsAll(r) /\ caught' = r.ok /\ sync' = r.ok
             /\ devd' = IF r.ok THEN devd \cup {d \in Docs : DeviationIn(doc', revs, d)} ELSE devd
+            /\ devc' = [d \in Docs |-> IF devc[d] # "" \/ ~r.ok THEN devc[d] ELSE ClassIn(doc', revs, d)]
          /\ rr' = NoRR
          /\ UNCHANGED <<revs, seq, dseq, running, cursor, ckpt, msgs, out, pool, twrote, edits, stops, reruns, rerun, snap, swapped, hist>>
 PRerun == /\ Ev("Rerun")
           /\ LET r == Trace[l] IN
              /\ doc' = LDocs(r) /\ obs' = LObsAll(r)
-             /\ rr' = [on |-> TRUE, w |-> r.w, r |-> r.r, f |-> r.f, same |-> (LDocs(r) = doc /\ LObsAll(r) = obs)]
-          /\ UNCHANGED <<revs, seq, dseq, running, cursor, ckpt, msgs, out, ghost, hist, caught>>
+             /\ rr' = [on |-> TRUE, w |-> r.w, r |-> r.r, f |-> r.f,
+                      chg |-> {d \in Docs : \E p \in Peers : LView(r[p][d]) # doc[p][d] \/ LObs(r[p][d]) # obs[p][d]}]
+          /\ UNCHANGED <<revs, seq, dseq, running, cursor, ckpt, msgs, out, ghost, hist, caught, devc>>
 PNext == Reset \/ PWrite \/ PStart \/ PStop \/ PSync \/ PRerun
 PSpec == TInit /\ [][PNext]_tvars
 
 (* ---- the property, evaluated on the recorded real state ---- *)
-DevClass(d) == IF CvSwap(d) THEN "TombstoneCvSwap" ELSE IF UnsentTomb(d) THEN "UnsentTombstone" ELSE "AfterDeviation"
+DevClass(d) == devc[d]
 (* same current revision (rev-tree id under v3, current version under v4), same body, same tombstone state - on the stored
    documents and on what the REST admin API serves.  A document on which a named deviation (Replication.tla) is observed
    is REPORTED through the DEV line (the driver files it under the deviation's fixed key) and checking goes on. *)
@@ -99,10 +105,13 @@ RestSame(d) == obs["A"][d].rest = obs["B"][d].rest
 Reported(d) == d \in devd /\ PrintT(<<"DEV", l - 1, d, DevClass(d)>>)
 ConvergedP == sync => \A d \in Docs : Promised(d) => ((SameView(d) /\ RestSame(d)) \/ Reported(d))
 SingleWinnerP == sync => \A p \in Peers, d \in Docs : obs[p][d].nlive <= 1
-(* a re-run of the caught-up replication: no revision is transferred (docs_written, docs_read stay 0), nothing changes, and
-   failed transfers only concern documents on which convergence is not promised or a deviation was reported *)
+(* a re-run of the caught-up replication: no revision is transferred (docs_written, docs_read stay 0) and nothing changes;
+   failed transfers (409) only concern documents on which convergence is not promised.  A document on which a named
+   deviation was reported is excused: the re-run, which lists everything again, may repair it (one transfer each). *)
 Unpromised == Cardinality({d \in Docs : ~Promised(d) \/ d \in devd})
-IdempotentRerunP == rr.on => (rr.w = 0 /\ rr.r = 0 /\ rr.same /\ rr.f <= Unpromised)
+IdempotentRerunP == rr.on => /\ rr.w + rr.r <= Cardinality(devd)
+                             /\ rr.chg \subseteq devd
+                             /\ rr.f <= Unpromised
 (* bounded-time progress (DESIGN 8): the replication reached a caught-up point *)
 EventuallyCaughtUpP == caught
 
@@ -116,32 +125,46 @@ CWrite ==
           /\ ImplWrite(r.p, r.d, r.kind, r.body, r.ver)
           /\ doc'[r.p][r.d] = LView(r.post)
           /\ TGhostWrite(r.p, r.d, TRUE)
-CGhostLife == /\ sync' = FALSE /\ rr' = NoRR
-              /\ UNCHANGED <<pool, twrote, edits, stops, reruns, rerun, snap, swapped, devd, hist, obs, caught>>
+CGhostLife == /\ sync' = FALSE /\ rr' = NoRR /\ KeepCfg
+              /\ UNCHANGED <<pool, twrote, edits, stops, reruns, rerun, snap, swapped, devd, hist, obs, caught, devc>>
 CStart == Ev("Start") /\ ImplStart /\ CGhostLife
-CStop  == Ev("Stop") /\ ImplStop /\ CGhostLife
-(* an unlogged replication step *)
-CHidden == /\ l <= TraceLen /\ l' = l /\ running
-           /\ \E x \in Dirs : \/ ImplOffer(x) \/ ImplCheckpoint(x)
-                              \/ \E m \in msgs[x] : ImplAnswer(x, m) \/ ImplSend(x, m) \/ ImplApply(x, m)
+CStop  == /\ Ev("Stop") /\ running /\ running' = FALSE /\ msgs' = [x \in AllDirs |-> {}]
+          /\ \E c \in {ckpt, [x \in AllDirs |-> SafeSeq(x)]} : ckpt' = c        \* with or without a final checkpoint
+          /\ UNCHANGED <<doc, revs, seq, dseq, cursor>> /\ out' = [a |-> "Stop", d |-> 0, res |-> "None"]
+          /\ CGhostLife
+(* an unlogged replication step.  Conformance is existential (one explaining run suffices), so the steps that cannot change
+   what is explained are folded: a wanted revision is sent at once, checkpoints are only taken at caught-up points / Stop *)
+HAnswer(x, m) ==
+  /\ running /\ m \in msgs[x] /\ m.st = "offered"
+  /\ msgs' = [msgs EXCEPT ![x] = IF Known(Tgt(x), m) THEN @ \ {m} ELSE (@ \ {m}) \cup {[m EXCEPT !.st = "sent"]}]
+  /\ out' = [a |-> "Answer", d |-> m.d, res |-> "None"]
+  /\ UNCHANGED <<doc, revs, seq, dseq, running, cursor, ckpt>>
+CHidden == /\ l <= TraceLen /\ l' = l /\ running /\ KeepCfg
+           /\ \E x \in dirs : \/ ImplOffer(x)
+                              \/ \E m \in msgs[x] : HAnswer(x, m) \/ ImplApply(x, m)
            /\ out'.res # "starved"
-           /\ sync' = FALSE /\ UNCHANGED <<pool, twrote, edits, stops, reruns, rerun, snap, swapped, devd, hist, obs, rr, caught>>
-CSync == /\ Ev("Sync")
+           /\ sync' = FALSE /\ UNCHANGED <<pool, twrote, edits, stops, reruns, rerun, snap, swapped, devd, hist, obs, rr, caught, devc>>
+CSync == /\ Ev("Sync") /\ KeepCfg
          /\ LET r == Trace[l] IN
             IF r.ok
             THEN /\ Quiescent /\ doc = LDocs(r)
-                 /\ UNCHANGED <<doc, revs, seq, dseq, running, cursor, ckpt, msgs, out>>
+                 /\ ckpt' = cursor /\ out' = [a |-> "Sync", d |-> 0, res |-> "None"]
+                 /\ UNCHANGED <<doc, revs, seq, dseq, running, cursor, msgs>>
                  /\ devd' = devd \cup {d \in Docs : DeviationIn(doc, revs, d)}
-            ELSE /\ doc' = LDocs(r) /\ msgs' = [x \in Dirs |-> {}] /\ cursor' = [x \in Dirs |-> seq[Src(x)]]
-                 /\ UNCHANGED <<revs, seq, dseq, running, ckpt, out, devd>>
-         /\ obs' = LObsAll(Trace[l]) /\ caught' = Trace[l].ok /\ sync' = Trace[l].ok /\ rr' = NoRR
+            ELSE /\ doc' = LDocs(r) /\ msgs' = [x \in AllDirs |-> {}] /\ cursor' = [x \in AllDirs |-> seq[Src(x)]]
+                 /\ out' = [a |-> "Sync", d |-> 0, res |-> "None"]
+                 /\ UNCHANGED <<revs, seq, dseq, running, ckpt, devd>>
+         /\ obs' = LObsAll(Trace[l]) /\ caught' = Trace[l].ok /\ sync' = Trace[l].ok /\ rr' = NoRR /\ UNCHANGED devc
          /\ UNCHANGED <<pool, twrote, edits, stops, reruns, rerun, snap, swapped, hist>>
-CRerun == /\ Ev("Rerun") /\ Quiescent /\ doc = LDocs(Trace[l])
-          /\ rr' = [on |-> TRUE, w |-> Trace[l].w, r |-> Trace[l].r, f |-> Trace[l].f, same |-> TRUE]
-          /\ UNCHANGED <<impl, ghost, hist, obs, caught>>
+CRerun == /\ Ev("Rerun") /\ Quiescent
+          /\ \A p \in Peers, d \in Docs \ devd : doc[p][d] = LView(Trace[l][p][d])     \* a repaired deviation is re-bound
+          /\ doc' = LDocs(Trace[l])
+          /\ rr' = [on |-> TRUE, w |-> Trace[l].w, r |-> Trace[l].r, f |-> Trace[l].f, chg |-> {}]
+          /\ UNCHANGED <<revs, seq, dseq, running, cursor, ckpt, msgs, out, ghost, hist, obs, caught, devc>>
 CNext == Reset \/ CWrite \/ CStart \/ CStop \/ CHidden \/ CSync \/ CRerun
 CSpec == TInit /\ [][CNext]_tvars
 
+cview == <<doc, revs, seq, dseq, running, cursor, ckpt, msgs, ghost, l, obs, rr, caught, devc>>      \* pass C: `out` is not part of the identity of a state
 Progress == Mark(l)
 Accept == PrintHWM
 =============================================================================
